@@ -35,7 +35,13 @@ using namespace Qentem;
 #endif
 typedef CHAR C;
 typedef unsigned long long u64;
-enum : unsigned { CAP = 24 };
+#ifndef PMIN
+#define PMIN 0      /* lowest precision drawn (a high PMIN with PMAX == PMIN exercises the long zero padding) */
+#endif
+#ifndef CAPX
+#define CAPX 24
+#endif
+enum : unsigned { CAP = CAPX };
 struct FS : FixedStream<C, CAP> {     // see C10_int.cpp: plain `char` arguments must convert like in StringStream
     void operator+=(C c) { FixedStream<C, CAP>::operator+=(c); }
 };
@@ -48,7 +54,7 @@ static unsigned digit_at(const In &in, unsigned pos) { return (pos < NDIG) ? uns
 static void draw(In &in) {
     in.pl = vf_u8(); in.p0 = vf_any<C>(); in.p1 = vf_any<C>();
     in.p = vf_u8(); in.fl = vf_u8(); in.cd = vf_u8(); in.ru = (vf_u8() & 1U) != 0U;
-    vf_assume(in.pl <= 2U && in.p <= PMAX && in.cd >= 1U && in.cd <= CDMAX + NDIG);
+    vf_assume(in.pl <= 2U && in.p <= PMAX && in.p >= PMIN && in.cd >= 1U && in.cd <= CDMAX + NDIG);
     unsigned i = 0;
     while (i < NDIG) { in.d[i] = vf_any<C>(); vf_assume(is_digit(in.d[i])); ++i; }
     vf_assume(in.d[NDIG - 1U] != C('0'));
@@ -222,7 +228,7 @@ extern "C" void h_default() {
     In in;
     in.pl = vf_u8(); in.p0 = vf_any<C>(); in.p1 = vf_any<C>();
     in.p = vf_u8(); in.fl = vf_u8(); in.cd = vf_u8(); in.ru = (vf_u8() & 1U) != 0U;
-    vf_assume(in.pl <= 2U && in.p <= PMAX && in.cd >= 1U);
+    vf_assume(in.pl <= 2U && in.p <= PMAX && in.p >= PMIN && in.cd >= 1U);
     {
         unsigned i = 0;
         while (i < NDIG) { in.d[i] = vf_any<C>(); vf_assume(is_digit(in.d[i])); ++i; }
